@@ -457,7 +457,20 @@ impl GraphTensor {
         // Atomically take both pending and deleted
         // This prevents race where edge is deleted after snapshot but before clear
         let pending: Vec<EdgeEntry> = self.pending.lock().drain(..).collect();
-        let deleted: BTreeSet<EdgeId> = std::mem::take(&mut *self.deleted.lock());
+        let deleted: BTreeSet<EdgeId> = {
+            let mut deleted = self.deleted.lock();
+            // `incoming()` hides deleted edges only through this set: drop them from the
+            // incoming index before the set is forgotten, or they reappear after the merge
+            // (lock order deleted -> incoming_index, as in `incoming()`)
+            if !deleted.is_empty() {
+                let mut incoming = self.incoming_index.write();
+                for edges in incoming.values_mut() {
+                    edges.retain(|(_, edge_id)| !deleted.contains(edge_id));
+                }
+                incoming.retain(|_, edges| !edges.is_empty());
+            }
+            std::mem::take(&mut *deleted)
+        };
 
         if pending.is_empty() && deleted.is_empty() {
             return;
